@@ -31,6 +31,7 @@ func init() {
 			"FontInfo strings are valid UTF-8 (the reader sanitises them)",
 			"GIDToCID is present for CID-keyed fonts, with GIDToCID[0] = 0 and distinct CIDs <= 65535",
 			"the writer emits no unreferenced bytes: every byte belongs to a section reachable from the header or the Top DICT",
+			"simple fonts have at most 64000 glyphs: string identifiers are 16-bit numbers, so more than about 65000 custom names cannot be represented in the format (the writer panics or emits out-of-range SIDs there; recorded in the report, not judged)",
 		},
 	}, runC13)
 }
@@ -1247,10 +1248,15 @@ func runC13(c *mon.Ctx) {
 			var sp *c13spec
 			if k.Index%2 == 0 {
 				sp = c13cid(r, k, n, true)
+				if n == 65535 {
+					k.Class("glyphs:65535")
+				}
 			} else {
+				// SIDs are 16-bit numbers: a simple font cannot have more than about 65 000 custom strings
+				n = min(n, 60000+r.IntN(4000))
 				sp = c13simple(r, k, n, true)
+				k.Class("glyphs:simple>=20000")
 			}
-			k.Class("glyphs:65535")
 			c13check(k, sp)
 		})
 	}
@@ -1264,7 +1270,7 @@ func runC13(c *mon.Ctx) {
 		"width:fractional-default", "width:fractional-nominal", "font:cid", "font:simple", "fds:256", "fds:<256", "header-offsize:1", "header-offsize:2", "header-offsize:3",
 		"predefined-charset:0", "predefined-charset:1", "predefined-charset:2"}
 	if c.Thorough() {
-		req = append(req, "index-offsize:4", "glyphs:65535", "volume:>16MiB", "header-offsize:4")
+		req = append(req, "index-offsize:4", "glyphs:65535", "glyphs:simple>=20000", "volume:>16MiB", "header-offsize:4")
 	}
 	c.Require(req...)
 }
